@@ -6,6 +6,8 @@ import (
 	_ "verif/checks/c01"
 	_ "verif/checks/c13"
 	_ "verif/checks/c14"
+	_ "verif/checks/c16"
 	_ "verif/checks/c17"
 	_ "verif/checks/c18"
+	_ "verif/checks/c19"
 )
